@@ -76,6 +76,9 @@ def one(emit, cid, fam, rng, sample):
     shape = str(rng.choice(["n>p", "n<p"]))
     p = int(rng.integers(4, 14))
     n = p + int(rng.integers(5, 25)) if shape == "n>p" else max(4, p - int(rng.integers(1, 3)))
+    if fam == "quantile" and int(cid.rsplit("/r", 1)[1]) % 4 == 3:
+        # more features than the primal-dual solver's first working set (p0 = 100): it has to grow working sets
+        p, n = int(rng.integers(110, 150)), int(rng.integers(40, 60))
     X = C.make_X(rng, n, p, str(rng.choice(["gauss", "ar", "shifted", "scaled", "centered"])), rho=float(rng.choice([0.5, 0.95])))
     frac = float(rng.choice([1e-3, 1e-2, 0.1, 0.5, 0.9]))
     tol = 1e-8
